@@ -100,6 +100,8 @@ func (it *Generator) Send(arg Object) (Object, error) {
 	res, err := VmRunFrame(it.Frame)
 	it.Running = false
 	if err != nil {
+		// An exception escaped the generator: it is finished and must stay so
+		it.Frame.Yielded = false
 		return nil, err
 	}
 	if it.Frame.Yielded {
